@@ -143,3 +143,113 @@ pub fn run(args: &[String]) {
     });
     write_ndjson(&out, &rows);
 }
+
+// ---------------------------------------------------------------------------------------------
+// Concurrent cycles on one datastore directory (TufStoreConc.tla): two child processes under the
+// shim's schedule gate, stepped in the order a TLC behaviour prescribes.
+
+fn wait_for(path: &Path, child: &mut std::process::Child, secs: u64) -> &'static str {
+    let t0 = std::time::Instant::now();
+    loop {
+        if path.exists() { return "at"; }
+        if let Ok(Some(_)) = child.try_wait() {
+            // the gate file may have been created just before the process ended
+            return if path.exists() { "at" } else { "exited" };
+        }
+        if t0.elapsed().as_secs() >= secs { return "timeout"; }
+        std::thread::sleep(std::time::Duration::from_micros(150));
+    }
+}
+
+fn copy_dir(from: &Path, to: &Path) {
+    std::fs::create_dir_all(to).unwrap();
+    for e in std::fs::read_dir(from).unwrap().flatten() {
+        if e.path().is_file() { let _ = std::fs::copy(e.path(), to.join(e.file_name())); }
+    }
+}
+
+/// `vh c15conc --cases F --shim S --out O`; a case is {old, a, b, sched: ["A","B",...], follow: [v,...]}
+pub fn run_conc(args: &[String]) {
+    let cases = read_ndjson(&arg(args, "--cases").expect("--cases"));
+    let shim = arg(args, "--shim").expect("--shim");
+    let out = arg(args, "--out").expect("--out");
+    let exe = std::env::current_exe().unwrap();
+    let rows = par_map(cases, threads().min(8), move |i, c| {
+        let shim = shim.clone();
+        let exe = exe.clone();
+        async move {
+            let ctx = Ctx::new(4096, vec![]);
+            let old = c["old"].as_u64().unwrap();
+            let dir = scratch("c15conc");
+            let d = dir.path().join("ds");
+            let gate = dir.path().join("gate");
+            std::fs::create_dir(&d).unwrap();
+            std::fs::create_dir(&gate).unwrap();
+            let r1 = cycle(&ctx, &d, old, old, old).await;
+            let spawn = |tag: &str, v: u64| {
+                std::process::Command::new(&exe)
+                    .args(["c15-child", "--dir", d.to_str().unwrap(), "--versions", &format!("{v},{v},{v}")])
+                    .env("LD_PRELOAD", &shim)
+                    .env("SHIM_PREFIX", d.to_str().unwrap())
+                    .env("SHIM_GATE_DIR", gate.to_str().unwrap())
+                    .env("SHIM_TAG", tag)
+                    .env_remove("SHIM_LOG").env_remove("SHIM_N").env_remove("SHIM_MODE")
+                    .stdout(std::process::Stdio::piped())
+                    .stderr(std::process::Stdio::piped())
+                    .spawn()
+                    .expect("spawn child")
+            };
+            let mut ch = [spawn("A", c["a"].as_u64().unwrap()), spawn("B", c["b"].as_u64().unwrap())];
+            let mut j = [1u32, 1u32];          // next gate of each process
+            let mut live = [true, true];
+            let mut tool = String::new();
+            let mut steps_done = Vec::new();
+            for s in c["sched"].as_array().unwrap() {
+                let tag = s.as_str().unwrap();
+                let p = if tag == "A" { 0 } else { 1 };
+                if !live[p] { steps_done.push(format!("{tag}:-")); continue; }
+                // the process is (or will shortly be) stopped before its j-th critical call
+                match wait_for(&gate.join(format!("{tag}.at.{}", j[p])), &mut ch[p], 30) {
+                    "at" => {}
+                    "exited" => { live[p] = false; steps_done.push(format!("{tag}:gone")); continue; }
+                    _ => { tool = format!("timeout waiting for {tag} at gate {}", j[p]); break; }
+                }
+                std::fs::write(gate.join(format!("{tag}.go.{}", j[p])), b"").unwrap();
+                j[p] += 1;
+                // let it run up to its next critical call (or to its end) before anybody else moves
+                match wait_for(&gate.join(format!("{tag}.at.{}", j[p])), &mut ch[p], 30) {
+                    "at" => {}
+                    "exited" => { live[p] = false; }
+                    _ => { tool = format!("timeout waiting for {tag} to reach gate {}", j[p]); break; }
+                }
+                steps_done.push(format!("{tag}:{}", j[p] - 1));
+            }
+            // open every remaining gate and collect the results
+            for (p, tag) in ["A", "B"].iter().enumerate() {
+                for k in j[p]..=12 { let _ = std::fs::write(gate.join(format!("{tag}.go.{k}")), b""); }
+            }
+            let mut results = Vec::new();
+            for c in ch {
+                let o = c.wait_with_output().expect("child output");
+                let so = String::from_utf8_lossy(&o.stdout).to_string();
+                results.push(match so.lines().find(|l| l.starts_with("CHILD ")) {
+                    Some(l) => serde_json::from_str::<Value>(&l[6..]).unwrap_or(json!({"res":"unparsable"})),
+                    None => json!({"res": format!("exit:{:?} {}", o.status.code(), String::from_utf8_lossy(&o.stderr).chars().take(300).collect::<String>())}),
+                });
+            }
+            let files = files_view(&ctx, &d);
+            // the ordinary cycle that follows, once per candidate version, each on its own copy
+            let mut follow = Vec::new();
+            for v in c["follow"].as_array().unwrap() {
+                let v = v.as_u64().unwrap();
+                let cp = dir.path().join(format!("ds-follow-{v}"));
+                copy_dir(&d, &cp);
+                let r = cycle(&ctx, &cp, v, v, v).await;
+                follow.push(json!({"v": v, "r": r["res"], "ts": r["ts"], "sn": r["sn"], "tg": r["tg"]}));
+            }
+            json!({"case": i, "in": c, "cycle1": r1, "A": results[0], "B": results[1], "files": files,
+                   "follow": follow, "steps": steps_done, "tool": tool})
+        }
+    });
+    write_ndjson(&out, &rows);
+}
